@@ -35,7 +35,8 @@
 EXTENDS Naturals, Sequences, FiniteSets, TLC, Json, FiniteSetsExt, SequencesExt
 
 CONSTANTS Layout,       \* names the file placement (cfg files cannot carry sequences), see FileDirs
-          MaxSetters,   \* at most this many layers set any one key (bounds the enumeration)
+          MaxSetters,   \* at most this many layers set any one key          } bound the
+          MaxTotal,     \* at most this many (layer, key) settings altogether    } enumeration
           Bug           \* "none" | "inline_into_overrides" | "no_copy_in_parse_string" |
                         \* "combine_no_copy" | "extra_before_dirs"
 
@@ -105,6 +106,7 @@ TypeOK == /\ assign \in [Keys -> SUBSET Sources]
 Perms == {p \in [1..NF -> Files] : \A x, y \in 1..NF : x # y => p[x] # p[y]}
 Init == /\ assign \in [Keys -> UNION {kSubset(n, Sources) : n \in 0..MaxSetters}]
         /\ \A k \in Keys : assign[k] \subseteq SettersOf(k)
+        /\ Cardinality(assign["c"]) + Cardinality(assign["s"]) <= MaxTotal
         /\ hist \in {p \o <<p[1]>> : p \in Perms}
         /\ mode \in {"paths", "strings"}
         /\ stage = "root" /\ i = 1
